@@ -6036,12 +6036,16 @@ int32 psX509AuthenticateCert(psPool_t *pool, psX509Cert_t *subjectCert,
     psX509Cert_t *issuerCert,  psX509Cert_t **foundIssuer,
     void *hwCtx, void *poolUserPtr)
 {
-    psX509Cert_t *ic, *sc;
+    psX509Cert_t *ic, *sc, *unusedIssuer;
 
     if (subjectCert == NULL)
     {
         psTraceCrypto("No subject cert given to psX509AuthenticateCert\n");
         return PS_ARG_FAIL;
+    }
+    if (foundIssuer == NULL)
+    {
+        foundIssuer = &unusedIssuer; /* The caller does not want it */
     }
 
     /*
